@@ -248,13 +248,14 @@ def safe_div(a, w):
 # real code: building inputs and reading statistics
 
 
-def real_example(np_or_jnp, spec, ex, tkey='y', dkey='domain_id'):
+def real_example(np_or_jnp, spec, ex, tkey='y', dkey='domain_id', tdtype='int32'):
+  """tdtype: dtype of the class targets (raw label arrays are often uint8 / int8 / int16 / uint16)."""
   xp = np_or_jnp
   out = {dkey: xp.array(ex['d'], dtype='int32')}
   if is_seq(spec):
-    out[tkey] = xp.array(ex['t'], dtype='int32')
+    out[tkey] = xp.array(ex['t'], dtype=tdtype)
   else:
-    out[tkey] = xp.array(ex['t'][0], dtype='int32')
+    out[tkey] = xp.array(ex['t'][0], dtype=tdtype)
   return out
 
 
@@ -361,10 +362,11 @@ def gen_scores(rng, C, loss, small=False):
   return [rng.randint(-4, 4) for _ in range(C)]
 
 
-def gen_values(rng, C, n_max=3):
-  """masked / oov value tuples of length 0..n_max, mostly inside the class range."""
+def gen_values(rng, C, n_max=3, nonneg=False):
+  """masked / oov value tuples of length 0..n_max, mostly inside the class range
+  (nonneg: only values an unsigned target dtype can hold)."""
   n = min(n_max, rng.choice([0, 1, 1, 2, 2, 3]))
-  pool = list(range(C)) + [C, -1]
+  pool = list(range(C)) + ([C] if nonneg else [C, -1])
   return sorted(set(rng.choice(pool) for _ in range(n)))
 
 
@@ -379,9 +381,19 @@ def gen_lmask(rng, C):
   return out
 
 
-def gen_base_spec(rng, name, C):
+def gen_base_spec(rng, name, C, nonneg=False):
   pp = rng.random() < 0.5
   k = rng.randint(-3, C + 2)
+  if nonneg:
+    vals = lambda: gen_values(rng, C, nonneg=True)
+    spec = {'stce': lambda: ['stce', vals(), pp], 'sce': lambda: ['sce', vals()],
+            'stacc': lambda: ['stacc', vals(), gen_lmask(rng, C), pp],
+            'sttopk': lambda: ['sttopk', k, vals(), gen_lmask(rng, C), pp],
+            'trunc': lambda: ['trunc', rng.randrange(0, C + 1), vals()],
+            'oov': lambda: ['oov', vals(), vals(), pp], 'len': lambda: ['len', vals()],
+            'count': lambda: ['count', vals()], 'scount': lambda: ['scount', vals()]}.get(name)
+    if spec is not None:
+      return spec()
   if name == 'ce':
     return ['ce']
   if name == 'acc':
